@@ -438,15 +438,17 @@ def stale_state_programs(g, tier, tag):
             load_point(p, "p1", any_point(rng), rng)          # P
             load_point(p, "p2", any_point(rng), rng)          # other
             load_scalar(p, "s0", scalar_val(rng), rng)
-            def uses():
-                p.op("Point.Add", r="p3", a=["p1", "p0"])     # V on the cached side
-                p.op("Point.Subtract", r="p4", a=["p1", "p0"])
-                p.op("Point.Add", r="p3", a=["p0", "p1"])
-                p.op("Point.ScalarMult", r="p4", a=["s0", "p0"])
-                p.op("Point.VarTimeMultiScalarMult", r="p4", ss=["s0"], ps=["p0"])
-                p.op("Point.Bytes", r="p0", o=["b0"])
-                p.op("Point.BytesMontgomery", r="p0", o=["b1"])
-                p.op("Point.Equal", r="p0", a=["p1"])
+            def uses(V="p0", O="p1"):
+                p.op("Point.Add", r="p3", a=[O, V])           # V on the cached side
+                p.op("Point.Subtract", r="p4", a=[O, V])
+                p.op("Point.Add", r="p3", a=[V, O])
+                p.op("Point.ScalarMult", r="p4", a=["s0", V])
+                p.op("Point.VarTimeMultiScalarMult", r="p4", ss=["s0"], ps=[V])
+                p.op("Point.VarTimeDoubleScalarBaseMult", r="p4", a=["s0", V, "s0"])
+                p.op("Point.MultiScalarMult", r="p4", ss=["s0", "s0"], ps=[V, O])
+                p.op("Point.Bytes", r=V, o=["b0"])
+                p.op("Point.BytesMontgomery", r=V, o=["b1"])
+                p.op("Point.Equal", r=V, a=[O])
             uses()
             if w == "Point.Negate.self":
                 p.op("Point.Negate", r="p0", a=["p0"])
@@ -479,6 +481,18 @@ def stale_state_programs(g, tier, tag):
             else:
                 p.op(w, r="p0", ss=["s0", "s0"], ps=[rng.choice(["p0", "p2"]), "p1"])
             uses()
+            # the same calls on a freshly decoded copy of V's current value: identical arguments, identical results (purity)
+            if not w.endswith(".bad"):
+                p.op("Point.Bytes", r="p0", o=["b3"])
+                p.op("Point.SetBytes", r="p5", a=["b3"])
+                p.op("Point.Add", r="p3", a=["p1", "p5"])
+                p.op("Point.ScalarMult", r="p4", a=["s0", "p5"])
+                p.op("Point.VarTimeMultiScalarMult", r="p4", ss=["s0"], ps=["p5"])
+                p.op("Point.VarTimeDoubleScalarBaseMult", r="p4", a=["s0", "p5", "s0"])
+                p.op("Point.MultiScalarMult", r="p4", ss=["s0", "s0"], ps=["p5", "p1"])
+                # unrelated work of the same shape on another point, then the same calls once more
+                uses("p1", "p2")
+                uses()
 
 
 def suite_C04(g, tier):
@@ -577,6 +591,20 @@ def suite_C05(g, tier):
         p.op("Point.Bytes", r="p0", o=["b0"])
         p.op("Point.SetBytes", r="p1", a=["b0"])
         p.op("Point.Equal", r="p0", a=["p1"])
+    # every small-order point in every way of loading it (zero coordinates as zero limbs, as limbs of p, rescaled ...)
+    for t in TORS_PTS:
+        p = g.new("C05 small-order point, every representation")
+        for k, how in enumerate(["bytes", "bytes-nc", "ext", "ext-lam", "ext-ncl"]):
+            r = "p%d" % (k % 3)
+            load_point(p, r, t, rng, how)
+            p.op("Point.Bytes", r=r, o=["b0"])
+            p.op("Point.SetBytes", r="p4", a=["b0"])
+            p.op("Point.Bytes", r="p4", o=["b1"])
+            p.op("Point.Equal", r="p4", a=[r])
+            p.op("Point.Negate", r="p5", a=[r])
+            p.op("Point.Bytes", r="p5", o=["b2"])
+            p.op("Point.Add", r="p5", a=[r, "p4"])
+            p.op("Point.Bytes", r="p5", o=["b3"])
     m = 30 if tier == "quick" else 600
     for it in range(m):
         p = g.new("C05 special coordinates")
@@ -1479,8 +1507,12 @@ def suite_C14(g, tier):
 
 def suite_C15(g, tier):
     rng = g.rng
-    reps = 1 if tier == "quick" else 5
-    for _ in range(reps):
+    # the valid operands include the points whose X or Y limbs are all zero (the guard looks at exactly those limbs)
+    zero_coord = [(0, 1), (0, P - 1), (SQRTM1, 0), (P - SQRTM1, 0)]
+    reps = 5 if tier == "quick" else 15
+    for rep in range(reps):
+        vpt = zero_coord[rep] if rep < 4 else any_point(rng)
+        vhow = "bytes" if rep < 4 else None
         # every operation x every Point-typed input position set to the zero value (and aliased zero values)
         cases = []
         for op in ["Point.Add", "Point.Subtract"]:
@@ -1493,7 +1525,7 @@ def suite_C15(g, tier):
             for recv in ["z", "y", "v", "fresh"]:
                 p = g.new("C15 %s %s recv=%s" % (op, args, recv))
                 m = {"z": "p0", "y": "p1", "v": "p2", "fresh": "p3"}
-                load_point(p, "p2", any_point(rng), rng)
+                load_point(p, "p2", vpt, rng, vhow)
                 p.op(op, r=m[recv], a=[m[a] for a in args])
         for op in ["Point.Bytes", "Point.BytesMontgomery", "Point.ExtendedCoordinates"]:
             p = g.new("C15 %s" % op)
@@ -1502,12 +1534,12 @@ def suite_C15(g, tier):
             load_point(p, "p1", any_point(rng), rng)
             p.op(op, r="p1", o=o)
         p = g.new("C15 Equal")
-        load_point(p, "p2", any_point(rng), rng)
+        load_point(p, "p2", vpt, rng, vhow)
         for a, b in [("p0", "p2"), ("p2", "p0"), ("p0", "p1"), ("p0", "p0"), ("p2", "p2")]:
             p.op("Point.Equal", r=a, a=[b])
         for recv in ["p0", "p2", "p3"]:
             p = g.new("C15 scalar mults recv=%s" % recv)
-            load_point(p, "p2", any_point(rng), rng)
+            load_point(p, "p2", vpt, rng, vhow)
             load_scalar(p, "s0", scalar_val(rng), rng)
             p.op("Point.ScalarMult", r=recv, a=["s0", "p0"])
             p.op("Point.VarTimeDoubleScalarBaseMult", r=recv, a=["s0", "p0", "s0"])
@@ -1519,8 +1551,8 @@ def suite_C15(g, tier):
             for n in (1, 2, 3):
                 for zpos in range(n):
                     p = g.new("C15 %s n=%d zero at %d" % (alg, n, zpos))
-                    load_point(p, "p2", any_point(rng), rng)
-                    load_point(p, "p3", any_point(rng), rng)
+                    load_point(p, "p2", vpt, rng, vhow)
+                    load_point(p, "p3", rng.choice(zero_coord + [any_point(rng)]), rng, "bytes")
                     load_scalar(p, "s0", scalar_val(rng), rng)
                     ps = [rng.choice(["p2", "p3"]) for _ in range(n)]
                     ps[zpos] = "p0"
@@ -1572,6 +1604,26 @@ def suite_C16(g, tier):
         r, a, b = rng.choice([("e2", "e0", "e1"), ("e0", "e0", "e1"), ("e1", "e0", "e1"), ("e2", "e0", "e0"), ("e0", "e0", "e0")])
         p.op("Elem.SqrtRatio", r=r, a=[a, b])
         p.op("Elem.Bytes", r=r, o=["b0"])
+    # the algorithm compares v r^2 with u, -u and -u sqrt(-1): operands for which two of these candidates differ only by a
+    # sparse delta (one bit, or the high bits of the limbs)
+    consts = [2, (1 + SQRTM1) % P, (SQRTM1 - 1) % P, (1 - SQRTM1) % P, (P - 1 - SQRTM1) % P]
+    m = 40 if tier == "quick" else 600
+    for it in range(m):
+        p = g.new("C16 near-miss candidates")
+        for k in range(4):
+            if rng.randrange(2):
+                dlt = 1 << rng.randrange(255)
+            else:
+                dlt = 0
+                for i in range(5):
+                    if rng.randrange(2):
+                        lo = rng.choice([32, 33, 40, 48, 50])
+                        dlt |= (rng.randrange(1, 2**(51 - lo)) << lo) << (51 * i)
+            u = dlt % P * inv(rng.choice(consts)) % P
+            vv = rng.choice([1, 1, field_val(rng) or 1])
+            load_elem(p, "e0", u * vv % P, rng, "bytes")
+            load_elem(p, "e1", vv, rng, "bytes")
+            p.op("Elem.SqrtRatio", r=rng.choice(["e2", "e0"]), a=["e0", "e1"])
     for v in range(19) if tier != "quick" else [0, 1, 4]:
         p = g.new("C16 non-canonical operands")
         p.elem_from_int("e0", P + v)
@@ -1678,6 +1730,7 @@ def suite_C19(g, tier):
             p.op(alg, r="p5", ss=["s0", "s1", "s2", "s3", "s0"], ps=["p1", "p2", "p3", "p4", "p2"])
             p.op(alg, r="p0", ss=["s0", "s1"], ps=["p1", "p2"])
             p.op(alg, r="p5", ss=[], ps=[])
+            p.op(alg, r="p0", ss=[], ps=[])
             p.op(alg, r="p0", ss=["s2"], ps=["p3"])
             p.op(alg, r="p5", ss=["s0", "s1", "s2"], ps=["p1", "p2", "p3"])
             p.op(alg, r="p0", ss=["s2"], ps=["p3"])
@@ -1688,6 +1741,7 @@ def suite_C19(g, tier):
         p.op("Point.ScalarMult", r="p5", a=["s1", "p2"])
         p.op("Point.ScalarMult", r="p0", a=["s0", "p1"])
         p.op("Point.Bytes", r="p0", o=["b0"])
+    stale_state_programs(g, tier, "C19")
 
 
 def suite_field_programs(g, tier):
@@ -1968,8 +2022,8 @@ def conc_scenario(sid, rng, G):
     load_point(pre, "p1", any_point(rng), rng, "bytes")
     load_scalar(pre, "s0", scalar_val(rng), rng, "canon")
     load_scalar(pre, "s1", scalar_val(rng), rng, "canon")
-    pre.elem_from_int("e0", field_val(rng))
-    pre.elem_from_int("e1", field_val(rng))
+    load_elem(pre, "e0", field_val(rng), rng, rng.choice(["inject", "bytes"]))
+    load_elem(pre, "e1", rng.randrange(19), rng, "bytes")          # often in the non-canonical form value + p
     gors = []
     first = rng.choice(["same-base", "same-naf", "mixed"])
     for g in range(G):
@@ -2011,5 +2065,14 @@ def conc_scenario(sid, rng, G):
                 p.op("Elem.Multiply", r="e2", a=["e0", "e1"])
                 p.op("Elem.Invert", r="e3", a=["e0"])
                 p.op("Elem.SqrtRatio", r="e4", a=["e0", "e1"])
+                p.op("Elem.Equal", r="e0", a=["e1"])
+                p.op("Elem.Equal", r="e1", a=["e0"])
+                p.op("Elem.IsNegative", r="e1")
+                p.op("Elem.Bytes", r="e0", o=["b6"])
+                p.op("Point.SetExtendedCoordinates", r="p4", a=["e0", "e1", "e1", "e0"])
+                p.op("Point.ExtendedCoordinates", r="p0", o=["e4", "e5", "e6", "e7"])
+                p.op("Scalar.Equal", r="s0", a=["s1"])
+                p.op("Scalar.Bytes", r="s1", o=["b5"])
+                p.op("Point.Bytes", r="p1", o=["b4"])
         gors.append(p.to_json())
     return {"id": sid, "prelude": pre.steps, "goroutines": gors}
